@@ -194,6 +194,8 @@ func (s *Store) GetTransaction(ctx context.Context, txID *big.Int) (*ledger.Tran
 func (s *Store) InsertLogs(ctx context.Context, logs ...*ledger.ChainedLog) error {
 	if s.S != nil { // under the scheduler: park until it decides the outcome
 		switch s.S.workerArrive(s.Gen, logs) {
+		case -1:
+			return nil // the execution is closed: nothing is written any more
 		case 0:
 			return errInjected
 		case 2:
